@@ -109,6 +109,7 @@ def run(ctx):
         ctx.cov["behaviours_closing_the_listener_with_live_associations"] += sum(1 for x in sums if x.get("live_at_close", 0) > 0)
     # a client datagram in the window between the deadline firing and natmap.del
     U.window(ctx, U.PROPS["C14"] + ["MetricsLanguage", "PktTPerReply", "OnePerClient", "SrcPrivate"])
+    server_wiring(ctx)
     if rows is None and not rb:
         raise vlib.Inconclusive("no driver covered C14")
     if not q:
@@ -118,6 +119,46 @@ def run(ctx):
                         "weak fairness; virtual-time behaviours are judged with exact instants, real-socket behaviours with one-sided "
                         "bounds; non-trivial = an association exists and time passes / a port-53 reply arrives / the listener closes",
                         ASSUME)
+
+
+def server_wiring(ctx):
+    """5. the promise as the server wires it: configurations of both formats (catalogue of Reload.tla) are loaded into a real
+    OutlineServer started with -udptimeout = 150 ms; every association opened by an authenticated probe datagram is followed
+    until the server reports it removed; ReloadTrace judges the life time (Reload!NatLifeOK)."""
+    from checks import rl_common
+    cat = rl_common.gen_scenarios(ctx, "Gen_Reload.cfg", 60, ctx.seed + 5)
+    seen, legacy, svc = set(), [], []
+    for b in cat:
+        for st in b:
+            if st["a"] == "Load" and st["ok"]:
+                c = st["cfg"]
+                k = json.dumps(c, sort_keys=True)
+                if k in seen:
+                    continue
+                seen.add(k)
+                has_udp_svc = any(l[0] == "udp" for s in c["svcs"] for l in s["ls"])
+                if c["legacy"]:
+                    legacy.append(c)
+                elif has_udp_svc:
+                    svc.append(c)
+    n = 4 if ctx.quick else 30
+    chosen = legacy[:n] + svc[:n]
+    if not legacy or not svc:
+        raise vlib.Inconclusive("the catalogue produced no legacy-format or no services-format configuration with UDP listeners")
+    sc = [{"id": i + 1, "replay": 0, "mode": "natlife", "steps": [{"a": "Load", "cfg": c, "frn": [], "ok": True}]} for i, c in enumerate(chosen)]
+    tf = rl_common.run_harness(ctx, sc, "c14-wiring", timeout=1500)
+    res = rl_common.judge(ctx, tf, "server wiring of -udptimeout, both configuration formats", "C14",
+                          {"nat-lifetime": "an association of a running service lived shorter than the configured -udptimeout or was not "
+                                           "reported removed within 3 s after it"}, only={"nat-lifetime"})
+    followed = sum(len(r.get("natlife", [])) for r in vlib.read_ndjson(tf) if r.get("ev") == "Probe")
+    if followed == 0:
+        raise vlib.Inconclusive("server wiring: no association was followed")
+    lives = [x[2] for r in vlib.read_ndjson(tf) if r.get("ev") == "Probe" for x in r.get("natlife", [])]
+    ctx.cov["server_wiring_lifetime_ms_min_max"] = [min(lives), max(lives)]
+    ctx.cov["server_wiring_associations_followed"] = followed
+    ctx.cov["server_wiring_configurations"] = {"legacy_format": len(legacy[:n]), "services_format": len(svc[:n])}
+    ctx.cov["evaluations"] += len(chosen)
+    ctx.cov["distinct_nontrivial"] += len(chosen)
 
 
 def dns17(ctx):
@@ -136,6 +177,13 @@ def dns17(ctx):
 
 def replay(ctx, path):
     d = json.load(open(path))
+    if "events" in d["replay"]:      # server wiring
+        from checks import rl_common
+        ev = d["replay"]["events"]
+        steps = [{"a": "Load", "cfg": e["cfg"], "frn": e["frn"], "ok": e["ok"]} for e in ev if e.get("ev") == "Load" and e["cfg"].get("kind") != "stop"]
+        tf = rl_common.run_harness(ctx, [{"id": 1, "replay": 0, "mode": "natlife", "steps": steps}], "replay")
+        rl_common.judge(ctx, tf, "replay of " + os.path.basename(path), "C14", {"nat-lifetime": "association life time differs from -udptimeout"}, only={"nat-lifetime"})
+        return
     if d["replay"].get("cfg") == "UdpNatTraceVirt.cfg" and d["replay"].get("behaviour"):
         virt(ctx, [d["replay"]["behaviour"]], "replay")
         return
